@@ -187,6 +187,10 @@ class TupleT(T):
     def __init__(self, *elems):
         self.elems = elems
 
+    def expand(self):
+        import itertools
+        return [TupleT(*c) for c in itertools.product(*[e.expand() for e in self.elems])]
+
     def family(self, name, ctx, psorts):
         fs = [e.family(f"{name}_{i}", ctx, psorts) for i, e in enumerate(self.elems)]
         return lambda p: VTuple([f(p) for f in fs])
